@@ -56,6 +56,7 @@ def expected(combo):
 
 
 def check(combo, sep, codes=("G1", "G92", "G28", "G2")):
+    H.reset_pkg_state()      # every input starts from the package's import-time module state
     from ..world import World
     text = text_of(combo, sep)
     exp = expected(combo)
